@@ -36,6 +36,9 @@ def plan(tier, seed):
     for i, sch in enumerate(gen.SCHEMES):
         specs.append({"name": f"workflow-variants-{gen.SHORT[sch]}", "kind": "variants", "scheme": sch,
                       "budget_s": 120 if tier == "quick" else 900, "tails": 1 if tier == "quick" else 2})
+    for i in range(2 if tier == "quick" else 8):
+        specs.append({"name": f"commands{i}", "kind": "commands", "index": i, "sequences": 40 if tier == "quick" else 400,
+                      "budget_s": 100 if tier == "quick" else 900})
     for i in range(8 if tier == "quick" else 16):
         specs.append({"name": f"rand{i}", "kind": "rand", "index": i, "sequences": 40 if tier == "quick" else 600,
                       "budget_s": 80 if tier == "quick" else 900})
@@ -327,6 +330,133 @@ class Runner:
             return None
 
 
+async def run_commands_sequence(r, seq, scheme, idx):
+    """The same model driven through frontend.client.commands (what run_client.py calls): operations address the
+    service by its alias, outcomes are read from the captured stdout."""
+    import contextlib as cl
+    import io
+    import frontend.client.commands as cmds
+    import frontend.client.services.service_name_handler as snh
+    acc, rng = r.acc, r.ctx.rng
+    acc.count("cases")
+    acc.count("command_sequences")
+    cfg = gen.default_config(scheme)
+    if scheme == "CGKO06.SSE1":
+        cfg.update(param_s=64, param_dictionary_size=8)
+    if scheme == "CGKO06.SSE2":
+        cfg["param_n"] = 6
+    isz = cfg.get("param_identifier_size", 8)
+    ids = {"kw1": [gen.gen_id(rng, isz).hex() for _ in range(3)], "kw2": [gen.gen_id(rng, isz).hex()]}
+    d = r.ctx.tmpdir("cmd")
+    cfg_path, db_path = os.path.join(d, "cfg.json"), os.path.join(d, "db.json")
+    json.dump(cfg, open(cfg_path, "w"))
+    json.dump(ids, open(db_path, "w"))
+    sname = f"alias-{idx}-{rng.getrandbits(40)}"
+    flags, server_state, sid, key_bytes = 0, 0, None, None
+    trace = []
+    case = {"scheme": scheme, "sequence": list(seq), "trace": trace, "layer": "commands"}
+
+    def viol(sig, msg):
+        acc.violation("client-commands:" + sig, f"{msg}  (sequence {' '.join(seq)}; step {len(trace)})", case)
+
+    for op in seq:
+        out = io.StringIO()
+        before = flags
+        if op == "create-dup" and sid is None:
+            op = "create"  # nothing to duplicate yet: it is simply the first create-service
+        connects = op in ("upcfg", "upedb", "search")
+        if connects and sid is not None:
+            flags = (flags & ~(B_CFGUP | B_DBUP)) | (B_CFGUP if server_state >= 1 else 0) | (B_DBUP if server_state == 2 else 0)
+        expect = {"create": sid is None, "create-dup": False,
+                  "key": bool(flags & B_CFG) and not (flags & B_KEY),
+                  "encrypt": bool(flags & B_CFG) and bool(flags & B_KEY) and not (flags & B_ENC),
+                  "upcfg": bool(flags & B_CFG) and not (flags & B_CFGUP),
+                  "upedb": bool(flags & B_CFGUP) and not (flags & B_DBUP) and bool(flags & B_KEY) and bool(flags & B_ENC),
+                  "search": bool(flags & B_DBUP)}[op]
+        snap_before = snapshot(os.path.join(r.client_root, sid)) if sid else {}
+        mapping_before = dict(snh.read_service_mapping())
+        try:
+            with cl.redirect_stdout(out):
+                if op in ("create", "create-dup"):
+                    cmds.create_service(cfg_path, sname)
+                elif op == "key":
+                    cmds.generate_key(sname=sname)
+                elif op == "encrypt":
+                    cmds.encrypt_database(db_path, sname=sname)
+                elif op == "upcfg":
+                    await asyncio.wait_for(cmds.upload_config(sname=sname), 10)
+                elif op == "upedb":
+                    await asyncio.wait_for(cmds.upload_encrypted_database(sname=sname), 10)
+                else:
+                    await asyncio.wait_for(cmds.search("kw1", "hex", sname=sname), 10)
+        except asyncio.TimeoutError:
+            acc.count("timeouts")
+            return
+        text = out.getvalue()
+        accepted = ("successfully" in text or ">>> The result is" in text) and "error" not in text.lower()
+        trace.append([op, "accepted" if accepted else "refused", text.strip()[-90:]])
+        acc.count("command_ops")
+        if op == "create" and accepted and sid is None:
+            sid = snh.read_service_mapping().get(sname)
+        if op in ("create", "create-dup") and sid is not None and op != "create" or (op == "create" and not expect):
+            # the alias is registered once: it keeps pointing at the first service, whose files are untouched
+            acc.count("alias_checks")
+            if snh.read_service_mapping().get(sname) != mapping_before.get(sname):
+                viol("alias-remapped", f"service alias {sname} was re-pointed by a second create-service")
+                return
+            if snapshot(os.path.join(r.client_root, sid)) != snap_before:
+                viol("alias-create-changed-existing-service", "a second create-service with the same alias changed "
+                                                              "the files of the existing service")
+                return
+            if accepted:
+                viol("alias-reused", "create-service with an alias that already exists reported success")
+                return
+            continue
+        if accepted != expect:
+            viol(f"{'accepted' if accepted else 'refused'}-but-model-{'accepts' if expect else 'refuses'}:{op}@{before:05b}",
+                 f"{op} (via commands) with flags {before:05b} printed {text.strip()[-100:]!r}")
+            return
+        if accepted:
+            if op == "create":
+                flags |= B_CFG
+            elif op == "key":
+                flags |= B_KEY
+            elif op == "encrypt":
+                flags |= B_ENC
+            elif op == "upcfg":
+                flags |= B_CFGUP
+                server_state = 1
+            elif op == "upedb":
+                flags |= B_DBUP
+                server_state = 2
+            elif op == "search":
+                want = str(ids["kw1"]) if scheme not in gen.SET_RESULT else None
+                acc.count("searches_compared")
+                if want is not None and f">>> The result is {want}." not in text:
+                    viol("search-wrong-after-workflow", f"search printed {text.strip()[-120:]!r}, expected {want}")
+                    return
+        elif sid is not None:
+            snap_after = snapshot(os.path.join(r.client_root, sid))
+            changed = sorted(k for k in set(snap_before) | set(snap_after) if snap_before.get(k) != snap_after.get(k))
+            if changed and not (changed == ["service_meta"] and connects and r.persisted_flags(sid) == flags):
+                viol(f"refused-op-changed-files:{op}", f"refused {op} changed {changed}")
+                return
+        if sid is not None:
+            acc.count("persisted_flag_checks")
+            if r.persisted_flags(sid) != flags:
+                viol(f"persisted-flags-differ:after-{op}", f"service_meta holds {r.persisted_flags(sid)}, model {flags:05b}")
+                return
+            if flags & B_KEY:
+                kb = open(os.path.join(r.client_root, sid, "key"), "rb").read()
+                acc.count("key_file_checks")
+                if key_bytes is None:
+                    key_bytes = kb
+                elif kb != key_bytes:
+                    viol(f"key-file-changed:after-{op}", "the key file's bytes changed")
+                    return
+    acc.add("distinct", fp("cmd", scheme, list(seq), idx))
+
+
 async def amain(spec, acc, ctx):
     wh.setup_env()
     server = await wh.Server().start()
@@ -342,6 +472,21 @@ async def amain(spec, acc, ctx):
                     return
                 await retry_on_timeout(acc, lambda: r.run_sequence(pre + list(rest)))
         acc.add("exhaustive_prefixes", ".".join(pre))
+    elif spec["kind"] == "commands":
+        cops = ["create", "create-dup", "key", "encrypt", "upcfg", "upedb", "search"]
+        flow = ["create", "key", "encrypt", "upcfg", "upedb", "search"]
+        for i in range(spec["sequences"]):
+            if ctx.out_of_time() or acc.counters.get("timeouts", 0) > 3 or acc.n_violations > 25:
+                break
+            scheme = gen.SCHEMES[(i + spec["index"]) % len(gen.SCHEMES)]
+            if i % 3 == 0:
+                pos = ctx.rng.randint(0, len(flow))
+                seq = flow[:pos] + [ctx.rng.choice(cops)] + flow[pos:] + [ctx.rng.choice(cops)]
+            else:
+                seq = [ctx.rng.choice(flow[:min(len(flow), k + 2)] + cops[:2]) if ctx.rng.random() < 0.7 else ctx.rng.choice(cops)
+                       for k in range(ctx.rng.randint(5, 11))]
+            await retry_on_timeout(acc, lambda: run_commands_sequence(r, seq, scheme, f"{spec['index']}-{i}"))
+        acc.add("schemes", "commands-layer")
     elif spec["kind"] == "variants":
         # the complete workflow with one extra operation inserted at every position, and followed by every tail
         flow = ["create", "key", "encrypt", "upcfg", "upedb", "search"]
@@ -427,6 +572,9 @@ def finish(m, tier, seed):
         "key_file_checks": c.get("key_file_checks", 0),
         "searches_compared": c.get("searches_compared", 0),
         "distinct_traces": len(m["sets"].get("distinct_traces", [])),
+        "commands_layer_sequences": c.get("command_sequences", 0),
+        "commands_layer_operations": c.get("command_ops", 0),
+        "alias_checks": c.get("alias_checks", 0),
     }
     return {"coverage": cov, "inconclusive": inc,
             "assumptions": ["model: five flags with the prerequisite relation of the handlers; the two upload flags are "
